@@ -33,10 +33,12 @@ const (
 	ckAllZero
 	ckText
 	ckCRCTwins
+	ckWordRuns
+	ckZeroAfter16k
 	ckKinds
 )
 
-var contentKindNames = []string{"random", "two-symbol", "repeated-slice", "zero-tail", "all-zero", "text", "crc-twins"}
+var contentKindNames = []string{"random", "two-symbol", "repeated-slice", "zero-tail", "all-zero", "text", "crc-twins", "word-runs", "zero-after-16k"}
 
 // expandContent deterministically expands (kind, seed) to n bytes.
 func expandContent(kind int, seed uint64, n, sliceSize int) []byte {
@@ -102,6 +104,44 @@ func expandContent(kind int, seed uint64, n, sliceSize int) []byte {
 				}
 				forgeCRC(b[j*sliceSize:(j+1)*sliceSize], crc32.ChecksumIEEE(b[i*sliceSize:(i+1)*sliceSize]))
 			}
+		}
+	case ckWordRuns:
+		// long runs of one repeated 16-bit value (often with a zero low or
+		// high byte, as in raw images or audio), separated by random bytes
+		i := 0
+		for i < n {
+			run := 16 * (1 + int(g.next()%40))
+			lo, hi := byte(g.next()), byte(g.next())
+			switch g.next() % 4 {
+			case 0:
+				lo = 0
+			case 1:
+				hi = 0
+			case 2:
+				lo, hi = 0, 0
+			}
+			for k := 0; k < run && i < n; k++ {
+				if k%2 == 0 {
+					b[i] = lo
+				} else {
+					b[i] = hi
+				}
+				i++
+			}
+			for k := 0; k < int(g.next()%8) && i < n; k++ {
+				b[i] = byte(g.next())
+				i++
+			}
+		}
+	case ckZeroAfter16k:
+		// random up to 16 KiB (ending in a non-zero byte), zeros afterwards
+		for i := 0; i < n && i < 16384; i++ {
+			b[i] = byte(g.next())
+		}
+		if n >= 16384 {
+			b[16383] |= 1
+		} else if n > 0 {
+			b[n-1] |= 1
 		}
 	case ckText:
 		words := []string{"par", "ity ", "slice\n", "the ", "recovery ", "block ", "0123456789", "\n"}
@@ -242,6 +282,7 @@ func GenWorld(r *Run, o GenOpts) *World {
 		nf = 20 + t.Draw(12, "manyfiles-n")
 	}
 	par1Full := false
+	par1RoundBig := false
 	if o.Par1 && !o.SmallOnly && maxFiles >= 20 && t.Bool(1, 60, "par1-full-set") {
 		// PAR 1.0 allows 256 files and volumes altogether: fill it
 		nf = []int{156, 157, 200, 254, 255}[t.Draw(5, "par1-nf")]
@@ -334,13 +375,19 @@ func GenWorld(r *Run, o GenOpts) *World {
 		if par1Full {
 			size = 1 + t.Draw(24, "tiny")
 		}
+		if o.Par1 && !o.SmallOnly && i == 0 && t.Bool(1, 250, "par1-round-big") {
+			// a round, large file size (block-wise processing thresholds)
+			size = []int{512 << 10, 1 << 20, 338880, 512 << 10}[t.Draw(4, "round-big")]
+			par1RoundBig = true
+			r.Probe("par1-round-big-file")
+		}
 		if size < 1 && !o.Par1 {
 			size = 1
 		}
 		if o.SmallOnly && size > 8*S+1 && size > 300 {
 			size = 1 + size%(8*S)
 		}
-		if total+size > maxTotal && size > 64 && (o.Par1 || w.S < 16384 || total > 200000) {
+		if total+size > maxTotal && size > 64 && !par1RoundBig && (o.Par1 || w.S < 16384 || total > 200000) {
 			size = 1 + size%64
 		}
 		// bound the slice count for tiny slice sizes
@@ -350,7 +397,13 @@ func GenWorld(r *Run, o GenOpts) *World {
 		total += size
 		kind := ckRandom
 		if !o.RandomOnly {
-			kind = t.Pick([]int{8, 2, 2, 2, 1, 1, 2}, "content")
+			kind = t.Pick([]int{16, 4, 4, 4, 2, 2, 4, 3, 0}, "content")
+			if !o.Par1 && w.S >= 64 && w.S <= 8192 && t.Bool(1, 30, "zero-after-16k") {
+				// the zero tail stays within the slice that contains byte 16384
+				kind = ckZeroAfter16k
+				size = 16384 + 1 + t.Draw(w.S-16384%w.S, "zero-tail")
+				r.Probe("zeros-after-16KiB")
+			}
 			if kind == ckCRCTwins {
 				r.Probe("slices-sharing-crc32")
 			}
@@ -457,6 +510,28 @@ func GenWorld(r *Run, o GenOpts) *World {
 			}
 		}
 	}
+	// unrelated files whose names extend a protected file's or an archive
+	// member's name (editor backups, temporary files)
+	if t.Bool(1, 6, "name-extending-bystanders") {
+		f := w.Files[t.Draw(len(w.Files), "ext-of")]
+		for _, suffix := range []string{".tmp", "~", ".bak", ".part"} {
+			if t.Bool(1, 2, "ext") {
+				p := filepath.Join(w.Dir, f.Name+suffix)
+				data := expandContent(ckText, 41, 12, 4)
+				w.Bystanders[p] = data
+				w.Disk.Put(p, data)
+			}
+		}
+		for _, name := range []string{w.Base + ext + ".tmp", w.Base + ".vol00+01" + ext + ".tmp", w.Base + ".p01.tmp", w.Base + ext + "~"} {
+			if t.Bool(1, 3, "ext-archive") {
+				p := filepath.Join(w.Dir, name)
+				data := expandContent(ckText, 43, 9, 4)
+				w.Bystanders[p] = data
+				w.Disk.Put(p, data)
+			}
+		}
+		r.Probe("name-extending-bystanders")
+	}
 	// bystanders
 	nb := t.Pick([]int{3, 2, 1}, "bystanders")
 	for i := 0; i < nb; i++ {
@@ -487,6 +562,8 @@ func GenWorld(r *Run, o GenOpts) *World {
 		if w.R < 1 {
 			w.R = 1
 		}
+	} else if o.Par1 && par1RoundBig {
+		w.R = []int{64, 32, 99, 64}[t.Draw(4, "round-volumes")]
 	} else if o.Par1 {
 		w.R = 1 + t.Pick([]int{2, 3, 3, 2, 1, 1}, "volumes")
 		if t.Bool(1, 20, "manyvolumes") {
@@ -560,7 +637,7 @@ func (w *World) RecoveryPaths() []string {
 // ---- damage (media faults at rest) ----
 
 // Damage kinds on data files.
-var damageKinds = []string{"delete", "flip", "overwrite", "insert", "remove-bytes", "truncate", "append-garbage", "append-zeros", "strip-zeros", "swap", "copy-over", "forge-crc", "empty", "prepend"}
+var damageKinds = []string{"delete", "flip", "overwrite", "insert", "remove-bytes", "truncate", "append-garbage", "append-zeros", "strip-zeros", "swap", "copy-over", "forge-crc", "empty", "prepend", "strip-some-zeros"}
 
 // DamageData applies one tape-chosen media fault to the protected
 // files. enabled restricts the kinds (nil = all). Returns the kind.
@@ -717,6 +794,22 @@ func (w *World) DamageData(r *Run, enabled []string) string {
 		}
 		desc = fmt.Sprintf(" -%d", len(cur)-n)
 		cur = cur[:n]
+		w.Disk.Put(p, cur)
+	case "strip-some-zeros":
+		// lose some, not all, of the trailing zero bytes
+		z := 0
+		for z < len(cur) && cur[len(cur)-1-z] == 0 {
+			z++
+		}
+		k := 1
+		if z > 1 {
+			k = 1 + t.Draw(z, "nzeros")
+		}
+		if k > len(cur) {
+			k = len(cur)
+		}
+		desc = fmt.Sprintf(" -%d of %d", k, z)
+		cur = cur[:len(cur)-k]
 		w.Disk.Put(p, cur)
 	case "swap":
 		if len(w.Files) < 2 {
